@@ -255,6 +255,15 @@ func (v *formatter_) formatFloat(float float64) {
 	if !sts.Contains(str, ".") && !sts.Contains(str, "E") {
 		str += ".0"
 	}
+	if index := sts.Index(str, "E"); index >= 0 {
+		// The notation requires a fraction and an exponent without leading zeros.
+		var mantissa = str[:index]
+		var exponent = str[index+1:]
+		if !sts.Contains(mantissa, ".") {
+			mantissa += ".0"
+		}
+		str = mantissa + "E" + exponent[:1] + sts.TrimLeft(exponent[1:], "0")
+	}
 	v.appendString(str)
 }
 
